@@ -103,8 +103,53 @@ def strip_annotations(tree):
                             continue
                         blk[k] = ast.copy_location(ast.Pass(), st)
                     k += 1
+    count += desugar_closing(tree)
     if count:
         ast.fix_missing_locations(tree)
+    return count
+
+
+def desugar_closing(tree):
+    """``with contextlib.closing(E) as v: BODY`` is ``v = E; try: BODY finally: v.close()`` (closing.__exit__ calls
+    thing.close() and suppresses nothing) - read so when BODY never rebinds v and the name is contextlib's."""
+    names = set()
+    for st in tree.body:
+        if isinstance(st, ast.Import):
+            names |= {(al.asname or al.name) + ".closing" for al in st.names if al.name == "contextlib"}
+        elif isinstance(st, ast.ImportFrom) and st.module == "contextlib" and not st.level:
+            names |= {al.asname or al.name for al in st.names if al.name == "closing"}
+    if not names:
+        return 0
+    count = 0
+    for node in ast.walk(tree):
+        for fld in ("body", "orelse", "finalbody"):
+            blk = getattr(node, fld, None)
+            if not (isinstance(blk, list) and blk and isinstance(blk[0], ast.stmt)):
+                continue
+            k = 0
+            while k < len(blk):
+                st = blk[k]
+                k += 1
+                if not (isinstance(st, ast.With) and len(st.items) == 1):
+                    continue
+                it = st.items[0]
+                ce = it.context_expr
+                if not (isinstance(ce, ast.Call) and ast.unparse(ce.func) in names and len(ce.args) == 1 and not ce.keywords
+                        and not isinstance(ce.args[0], ast.Starred) and isinstance(it.optional_vars, ast.Name)):
+                    continue
+                v = it.optional_vars.id
+                rebinds = any(isinstance(x, ast.Name) and x.id == v and isinstance(x.ctx, (ast.Store, ast.Del))
+                              for b_ in st.body for x in ast.walk(b_))
+                scoped = any(isinstance(x, (ast.Global, ast.Nonlocal)) and v in x.names for x in ast.walk(tree))
+                if rebinds or scoped:
+                    continue
+                asg = ast.copy_location(ast.Assign(targets=[ast.Name(id=v, ctx=ast.Store())], value=ce.args[0]), st)
+                close = ast.Expr(value=ast.Call(func=ast.Attribute(value=ast.Name(id=v, ctx=ast.Load()), attr="close",
+                                                                   ctx=ast.Load()), args=[], keywords=[]))
+                tr = ast.copy_location(ast.Try(body=st.body, handlers=[], orelse=[], finalbody=[close]), st)
+                blk[k - 1:k] = [asg, tr]
+                k += 1
+                count += 1
     return count
 
 
